@@ -3,6 +3,7 @@ import spec
 from spec import hex_of, bits_of, val_of, GEN
 
 OBLIGATION_MODULES = ["PyModeS.Properties.C18"]
+TIE_MODULES = ['PyModeS.Tie.Uplink', 'PyModeS.Tie.C18Gen']
 MAIN_THEOREM = "PyModeS.C18.uplink_fields_spec / uplink_icao_roundtrip"
 RULE = ("UF x RR x DI with random SD; DI in {0,1,3,7} x RRS x IIS/SIS x LOS/LSS products; UF11 PR x IC x CL; addresses x both "
         "lengths through the Annex 10 uplink AP encoder; non-trivial = a field value (not None / '') expected")
